@@ -76,6 +76,20 @@ def parseParCall (s : String) : Option (Args Nat) :=
     pure (.sign (sk % r) m)
   | _ => none
 
+/-- `Signature.ToBigInt` as the harness prints it -/
+def tbiLine (sig : Bytes) : String :=
+  match sigToBigInt sig with
+  | .ok (x, y) => s!"{x},{y}"
+  | .err _ => "err"
+  | .panic m => "panic " ++ m
+
+/-- `decodePubKey` on the library's encoding of the key, as the harness prints it -/
+def dpkLine (enc : Bytes) : String :=
+  match decodePubKey enc with
+  | .ok ws => "ok " ++ ",".intercalate (ws.map toString)
+  | .err _ => "err"
+  | .panic m => "panic " ++ m
+
 def joinOutcomes (os : List Outcome) : String :=
   if os.isEmpty then "-" else "/".intercalate (os.map outcomeName)
 
@@ -89,8 +103,22 @@ def step (line : String) : String :=
     match sk.toNat?, msgOf ms with
     | some sk, some msg =>
       let x := sk % r
-      s!"ok {toHex (sign evalOps x msg)} pk={toHex (marshalG2 (G2.smul x g2gen))}"
+      let sig := sign evalOps x msg
+      let pk := marshalG2 (G2.smul x g2gen)
+      s!"ok {toHex sig} pk={toHex pk} tbi={tbiLine sig} dpk={dpkLine pk}"
     | _, _ => "bad-op"
+  | ["split", hs] =>
+    match ofHex hs with
+    | some b => tbiLine b
+    | none => "bad-op"
+  -- however the key object was built, `decodePubKey` sees the library's encoding of the element
+  | ["dpk", sk, _how] =>
+    match sk.toNat? with
+    | some sk => dpkLine (marshalG2 (G2.smul (sk % r) g2gen))
+    | none => "bad-op"
+  -- `NewKeyPair` returns (x, x·g₂) for the x it picked: whatever x, key and signature are consistent
+  -- (`pubkey_emits_canonical_words`, `evalOps_sign_verifies`); the harness decides it with math/big and the EVM
+  | ["kp", _, _] => "keypair-consistent"
   -- `Verify` is a pure function of (key, message, signature): every goroutine of every round gets the same verdict
   | ["conc", sk, ms, ss, _, rounds, n] =>
     match sk.toNat?, msgOf ms, ofHex ss with
